@@ -19,7 +19,7 @@ import (
 )
 
 const (
-	MaxTasks    = 32
+	MaxTasks    = 256
 	maxSwitches = 1 << 14
 	maxResets   = 64
 )
@@ -98,6 +98,7 @@ type kernel struct {
 	on       bool
 	ntasks   int
 	cur      int
+	parent   [MaxTasks]int16 // task that started this one with a go statement (-1: started by the harness)
 	status   [MaxTasks]int8
 	prio     [MaxTasks]int64
 	step     int64
@@ -181,12 +182,27 @@ func Step() int64 { return k.step }
 //go:norace
 func Cur() int { return k.cur }
 
+// Root is the harness task on whose behalf the current task runs: itself, or - for a task the code under test
+// started with a go statement - the harness task at the top of its chain of starters.
+//
+//go:norace
+func Root() int {
+	t := k.cur
+	for n := 0; t >= 0 && t < MaxTasks && k.parent[t] >= 0 && n < MaxTasks; n++ {
+		t = int(k.parent[t])
+	}
+	return t
+}
+
 // Begin starts a run. Must be called with no task running.
 func Begin(cfg Config) {
 	if k.on {
 		panic("simrt: Begin while a run is active")
 	}
 	k = kernel{}
+	for i := range k.parent {
+		k.parent[i] = -1
+	}
 	k.cfg = cfg
 	k.maxSteps = cfg.MaxSteps
 	if k.maxSteps <= 0 {
@@ -248,6 +264,7 @@ func RunTasks(fns []func()) {
 	k.ntasks = n
 	for i := 0; i < n; i++ {
 		k.status[i] = tsRunnable
+		k.parent[i] = -1
 	}
 	if k.strategy == 2 || k.strategy == 3 {
 		// distinct random priorities n..2n-1 (higher runs first)
@@ -489,6 +506,7 @@ func addTask() int {
 	i := k.ntasks
 	k.status[i] = tsRunnable
 	k.prio[i] = 0
+	k.parent[i] = int16(k.cur)
 	k.ntasks++
 	return i
 }
